@@ -847,4 +847,48 @@ theorem received_outs {now : Nat} {s : Node} {p : Key} {msg : Msg} {order : List
           obtain ⟨_, _, h2⟩ := h
           exact Or.inr ⟨_, h2.symm⟩
 
+/-! ### splitting a history -/
+
+theorem run_append (s : Node) (a b : List (Nat × Event)) :
+    run s (a ++ b) = ((run (run s a).1 b).1, (run s a).2 ++ (run (run s a).1 b).2) := by
+  induction a generalizing s with
+  | nil => simp [run]
+  | cons x rest ih =>
+    obtain ⟨t, e⟩ := x
+    simp only [List.cons_append, run, ih, List.append_assoc]
+
+theorem step_perm_stable (now : Nat) (s : Node) (e : Event) (p : Key)
+    (h : ∀ tok md ml, e ≠ Event.advertise p tok md ml) : lookup p (step now s e).1.perms = lookup p s.perms := by
+  cases e with
+  | addKnown l raw padded name key md => rfl
+  | disclosure q msg order =>
+    show lookup p (receivedDisclosure now s q msg order).1.perms = _
+    rw [(received_frame now s q msg order).2.2.2]
+  | attestMsg q a =>
+    cases a with
+    | none => rfl
+    | some a => simp only [step, onAttest]; split <;> rfl
+  | requestMissing q k => rfl
+  | selfAdvertise tok => rfl
+  | advertise to tok md ml =>
+    simp only [step, lookup_insertDict]
+    split
+    · rename_i heq
+      subst heq
+      exact absurd rfl (h tok md ml)
+    · rfl
+
+theorem run_perm_stable (p : Key) : ∀ (post : List (Nat × Event)) (s : Node),
+    (∀ x ∈ post, ∀ tok md ml, x.2 ≠ Event.advertise p tok md ml) →
+    lookup p (run s post).1.perms = lookup p s.perms := by
+  intro post
+  induction post with
+  | nil => intro s _; rfl
+  | cons x rest ih =>
+    intro s h
+    obtain ⟨t, e⟩ := x
+    simp only [run]
+    rw [ih _ (fun y hy => h y (List.mem_cons_of_mem _ hy))]
+    exact step_perm_stable t s e p (h (t, e) (by simp))
+
 end Ipv8.C17
